@@ -7,7 +7,7 @@ import FDAProofs.Lemmas.Repr
 import FDAProofs.Lemmas.Tabular
 import FDAProofs.Lemmas.Irregular
 import FDAModel.Generated.CsvRule
-import FDAModel.Generated.BasisFormulas
+import FDAModel.Generated.CoefSpaceFormulas
 
 namespace C14
 open FDA FDA.Tab Finset
